@@ -425,6 +425,9 @@ DrawNext ==
        LET rec(pts, opt) == [ri |-> IF Bug = "swapRowCol" THEN coli ELSE rowi,
                              ci |-> IF Bug = "swapRowCol" THEN rowi ELSE coli,
                              sty |-> sty, lab |-> lab, slice |-> base,
+                             \* where in the colour scale (palette or the hue's colormap) the i-th of N colour
+                             \* coordinates sits: np.linspace(0, 1, N)[i] - by rank, whatever the coordinate values
+                             cpos |-> IF pm[2] # <<>> THEN <<sty[2] - 1, Max({1, Len(dom[2]) - 1})>> ELSE <<0, 1>>,
                              fd |-> UNION {Range(rem[k]) : k \in 1..Len(rem)}, pts |-> pts, opt |-> opt]
        IN  IF Mode = "lines" THEN
                \E allp \in {[xi \in 1..Sizes[XD] |->
